@@ -15,7 +15,7 @@
    read back verbatim.  The three clauses of the property therefore carry the hypothesis
    [encodings_stable sm = true] (every non-as-is encoding satisfies [cast_stable]: CellString gives it back
    verbatim); the unrestricted statements are refuted below with the witnesses 1E3, 1000000 and F. *)
-From Coq Require Import List String QArith Bool Arith.
+From Coq Require Import List String Ascii QArith Bool Arith.
 From Crem Require Import Base.Res CsvTable GoCast GoCastProofs SummaryRoundTrip SummaryProofs.
 Import ListNotations.
 Local Open Scope string_scope.
@@ -111,6 +111,31 @@ Theorem C13_front_member_refuted :
     pareto_member model_fmt (fun e => Some e) st' (r_enc r) = Ok (Some (Some false)).
 Proof. exact c13_front_member_refuted. Qed.
 
+(* ---- where D9 cannot strike: encodings of several words (scenarios with more than 64 actions) ----
+   Every string over [0-9A-Fa-f:] that contains ':' is text for the caster, so for such summaries the round trip
+   holds with NO stability hypothesis. *)
+Theorem C13_multiword_encoding_is_stable : forall s,
+  forallb hexcolon (chars s) = true -> In ":"%char (chars s) -> cast_stable s = true.
+Proof. exact colon_encoding_stable. Qed.
+
+Theorem C13_round_trip_multiword : forall cast fmt asis sm r, cast_agrees cast -> fmt_agrees fmt ->
+  wf_summary asis sm = true -> multiword sm = true -> In r (tl sm) ->
+  exists st' st'',
+    post_solutions cast fmt asis fresh (CsvRecords (marshal_records (map fst asis) sm)) = Ok (S200, st') /\
+    get_solution fmt st' (r_label r) = Ok (Decoded (r_enc r) (r_note r), st'').
+Proof. exact c13_round_trip_multiword. Qed.
+
+(* ---- the hypotheses of wf_summary are met by what the marshaller writes: every "%.3f" text (optional '-',
+   one or more digits, '.', digits) of a value below the float64 range is a number for the caster ---- *)
+Theorem C13_value_texts_are_numbers : forall v, vtext_ok v = true -> vtext_in_range v = true ->
+  is_number (vtext_string v) = true.
+Proof. exact vtext_is_number. Qed.
+
+Example C13_example_value_text :
+  let v := mkV true ["1"; "1"; "2"; "3"]%char ["2"; "6"; "6"]%char in
+  vtext_string v = "-1123.266" /\ vtext_ok v = true /\ vtext_in_range v = true.
+Proof. vm_compute. repeat split; reflexivity. Qed.
+
 (* ---- non-vacuity: the hypotheses are met by concrete things ---- *)
 Example C13_example_agrees : cast_agrees model_cast /\ fmt_agrees model_fmt.
 Proof. split; [exact model_cast_agrees|exact model_fmt_agrees]. Qed.
@@ -140,3 +165,6 @@ Print Assumptions C13_lookup_after_repost_refuted.
 Print Assumptions C13_front_member_partial.
 Print Assumptions C13_front_non_member_partial.
 Print Assumptions C13_front_member_refuted.
+Print Assumptions C13_multiword_encoding_is_stable.
+Print Assumptions C13_round_trip_multiword.
+Print Assumptions C13_value_texts_are_numbers.
